@@ -216,3 +216,18 @@ theorem C03_facts_simple_tree_is_made_of_the_translated_parts :
    simple_tree_operations_grow_then_use.2⟩
 
 end Gtree
+
+namespace Gtree
+
+/-- **C03 (facts: the entry points).**  Every exported entry point — the Markdown forms, the From-Root forms, and the
+    deprecated names of both — builds its tree with `initializeTree(cfg)`, which constructs a new simple tree, or a new
+    massive one exactly when `cfg.massive`, on every call (nothing is cached or shared between calls), and calls the
+    operation of its own name on it: a From-Root call and the Markdown call of the same operation run the same parts. -/
+theorem C03_facts_entry_points_build_a_fresh_tree :
+    expectedEntryTree.all (fun e => lookupL e.1 Facts.entryTree == e.2) = true ∧
+    Facts.entryTree.length = expectedEntryTree.length ∧
+    lookupL "initializeTree" Facts.initTree =
+      ["if:cfg.massive", "return", "call:newTreePipeline", "return", "call:newTreeSimple"] :=
+  entry_points_build_a_fresh_tree
+
+end Gtree
